@@ -47,7 +47,13 @@ def _mean_update(
     input: torch.Tensor, weight: float | int | torch.Tensor
 ) -> tuple[torch.Tensor, torch.Tensor]:
     if isinstance(weight, float) or isinstance(weight, int):
-        weighted_sum = weight * torch.sum(input)
+        total = torch.sum(input)
+        if isinstance(weight, float) and not (
+            total.is_floating_point() or total.is_complex()
+        ):
+            # an integer total times a float weight would be rounded to float32
+            total = total.double()
+        weighted_sum = weight * total
         weights = torch.tensor(float(weight) * torch.numel(input))
         return weighted_sum, weights
     elif isinstance(weight, torch.Tensor) and input.size() == weight.size():
